@@ -127,6 +127,116 @@ mod imp {
         }
     }
 
+    /// contract tie of the opcode level of Model/TypedArray.v: every array / vec load, get, store, push
+    /// and pop arm (all element kinds), executed on the real VM with a container object and raw index /
+    /// value words; `QAop <opcode> <container> <idx word> <value word>\t<outcome>|<contents after>`
+    ///   container: A:<K>:<elems> | V:<K>:<elems> | S:<chars> | O    (what the container word resolves to)
+    ///   outcome:   W <word> | N | S <i> | E <0 index|1 type|2 handle|9 other> | P
+    pub fn arrayops(seed: u64, count: u64) {
+        use aelys_bytecode::object::{AelysArray, AelysVec};
+        use aelys_bytecode::{GcRef, ObjectKind};
+        let mut rng = Rng::new(seed ^ 0xA0F5);
+        let ops: Vec<(u8, char)> = (135u8..=138).map(|o| (o, 'l')).chain((139..=142).map(|o| (o, 'l')))
+            .chain((143..=146).map(|o| (o, 's'))).chain((153..=156).map(|o| (o, 'p'))).chain((157..=160).map(|o| (o, 'o')))
+            .chain((164..=167).map(|o| (o, 'l'))).chain((168..=171).map(|o| (o, 'l'))).chain((172..=175).map(|o| (o, 's'))).collect();
+        let idx_pool: Vec<u64> = vec![
+            Value::int(0).raw_bits(), Value::int(1).raw_bits(), Value::int(2).raw_bits(), Value::int(3).raw_bits(), Value::int(7).raw_bits(),
+            Value::int(-1).raw_bits(), Value::int(-5).raw_bits(), Value::int((1 << 47) - 1).raw_bits(), Value::int(-(1 << 47)).raw_bits(),
+            Value::float(0.0).raw_bits(), Value::float(1.0).raw_bits(), Value::float(2.0).raw_bits(), Value::float(1.5).raw_bits(),
+            Value::float(-1.0).raw_bits(), Value::float(f64::NAN).raw_bits(), Value::float(f64::INFINITY).raw_bits(), 1,
+            Value::bool(true).raw_bits(), Value::bool(false).raw_bits(), Value::null().raw_bits(), 0xFFF9_0000_0000_0001,
+        ];
+        let val_pool: Vec<u64> = vec![
+            Value::int(5).raw_bits(), Value::int(-9).raw_bits(), Value::float(2.5).raw_bits(), Value::float(f64::NAN).raw_bits(),
+            Value::float(3.0).raw_bits(), Value::bool(true).raw_bits(), Value::bool(false).raw_bits(), Value::null().raw_bits(),
+        ];
+        let describe = |vm: &VM, w: u64| -> (String, Vec<u64>) {
+            let p = Value::from_raw(w).as_ptr().unwrap_or(0);
+            match vm.heap().get(GcRef::new(p)).map(|o| &o.kind) {
+                Some(ObjectKind::Array(a)) => {
+                    let c: Vec<u64> = (0..a.len()).map(|i| a.get(i).unwrap().raw_bits()).collect();
+                    (format!("A:{}", ["KI", "KF", "KB", "KO"][a.type_tag() as usize]), c)
+                }
+                Some(ObjectKind::Vec(v)) => {
+                    let c: Vec<u64> = (0..v.len()).map(|i| v.get(i).unwrap().raw_bits()).collect();
+                    (format!("V:{}", ["KI", "KF", "KB", "KO"][v.type_tag() as usize]), c)
+                }
+                Some(ObjectKind::String(s)) => (format!("S:{}", s.as_str().chars().count()), vec![]),
+                Some(_) => ("O".to_string(), vec![]),
+                None => ("H".to_string(), vec![]),
+            }
+        };
+        let mut vm = VM::new(Source::new("<aop>", "")).expect("vm");
+        let mut runs = 0;
+        for n in 0..count {
+            if runs >= 150 { vm = VM::new(Source::new("<aop>", "")).expect("vm"); runs = 0; }
+            runs += 1;
+            let (opc, shape) = ops[(n as usize) % ops.len()];
+            // ---- container
+            let kind = rng.below(4);
+            let len = rng.below(4) as usize;
+            let elem = |rng: &mut Rng, k: u64| -> Value { match k {
+                0 => Value::int(rng.range_i64(-50, 50)), 1 => Value::float((rng.range_i64(-40, 40) as f64) / 4.0),
+                2 => Value::bool(rng.chance(1, 2)), _ => *rng.pick(&[Value::int(4), Value::float(0.5), Value::null(), Value::bool(true)]) } };
+            let cw: u64 = match rng.below(10) {
+                0..=3 => { let mut a = match kind { 0 => AelysArray::new_ints(len), 1 => AelysArray::new_floats(len), 2 => AelysArray::new_bools(len), _ => AelysArray::new_objects(len) };
+                           for i in 0..len { let v = elem(&mut rng, kind); a.set(i, v); }
+                           Value::ptr(vm.alloc_array(a).expect("alloc").index()).raw_bits() }
+                4..=7 => { let mut v = match kind { 0 => AelysVec::new_ints(), 1 => AelysVec::new_floats(), 2 => AelysVec::new_bools(), _ => AelysVec::new_objects() };
+                           for _ in 0..len { let x = elem(&mut rng, kind); v.push(x); }
+                           Value::ptr(vm.alloc_vec(v).expect("alloc").index()).raw_bits() }
+                8 => Value::ptr(vm.alloc_string(["", "a", "héé", "wxyz"][len]).expect("alloc").index()).raw_bits(),
+                _ => *rng.pick(&[Value::int(3).raw_bits(), Value::null().raw_bits(), Value::float(1.0).raw_bits()]),   // not a pointer: object 0
+            };
+            let iw = if rng.chance(1, 12) { Value::ptr(vm.alloc_string("1").expect("alloc").index()).raw_bits() }      // a string as index
+                     else if rng.chance(5, 6) { *rng.pick(&idx_pool) } else { Value::float(rng.range_i64(0, 3) as f64).raw_bits() };
+            let vw = *rng.pick(&val_pool);
+            let (desc, before) = describe(&vm, cw);
+            let mut f = Function::new(Some("t".into()), 0);
+            f.num_registers = 6;
+            for (i, &w) in [cw, iw, vw].iter().enumerate() {
+                f.constants.push(Value::from_raw(w));
+                f.emit_b(OpCode::LoadK, i as u8, i as i16, 1);
+            }
+            let has_dest = match shape { 'l' | 'o' => true, _ => false };
+            let Some(op) = OpCode::from_u8(opc) else { continue };
+            match shape {
+                'l' => f.emit_a(op, 3, 0, 1, 1),
+                's' => f.emit_a(op, 0, 1, 2, 1),
+                'p' => f.emit_a(op, 0, 2, 0, 1),
+                _ => f.emit_a(op, 3, 0, 0, 1),
+            }
+            f.emit_a(OpCode::Return, if has_dest { 3 } else { 0 }, 0, 0, 1);
+            f.finalize_bytecode();
+            let r = guarded(std::panic::AssertUnwindSafe(|| {
+                let fr = vm.alloc_function(f).map_err(|e| kind_name(&e.kind).to_string())?;
+                vm.execute(fr).map(|v| v.raw_bits()).map_err(|e| kind_name(&e.kind).to_string())
+            }));
+            let outcome = match r {
+                Ok(Ok(w)) => {
+                    if !has_dest { "N".to_string() } else {
+                        // a fresh one-character string out of a string container?
+                        let rv = Value::from_raw(w);
+                        let ch = if desc.starts_with("S:") { rv.as_ptr().and_then(|p| match vm.heap().get(GcRef::new(p)).map(|o| &o.kind) {
+                            Some(ObjectKind::String(s)) => Some(s.as_str().to_string()), _ => None }) } else { None };
+                        match (ch, Value::from_raw(iw).as_int(), Value::from_raw(cw).as_ptr()) {
+                            (Some(c), Some(i), Some(p)) if i >= 0 => {
+                                let whole = match vm.heap().get(GcRef::new(p)).map(|o| &o.kind) { Some(ObjectKind::String(s)) => s.as_str().to_string(), _ => String::new() };
+                                if whole.chars().nth(i as usize).map(|x| x.to_string()) == Some(c) { format!("S {}", i) } else { format!("W {}", w) }
+                            }
+                            _ => format!("W {}", w),
+                        }
+                    }
+                }
+                Ok(Err(k)) => { vm.clear_frames(); format!("E {}", match k.as_str() { "IndexOutOfBounds" => 0, "TypeError" => 1, "InvalidMemoryHandle" => 2, _ => 9 }) }
+                Err(_) => { vm = VM::new(Source::new("<aop>", "")).expect("vm"); runs = 0; "P".to_string() }
+            };
+            let after = if outcome == "P" { before.clone() } else { describe(&vm, cw).1 };
+            let l = |v: &Vec<u64>| v.iter().map(|x| x.to_string()).collect::<Vec<_>>().join(",");
+            println!("QAop {} {}:{} {} {}\t{}|{}", opc, desc, l(&before), iw, vw, outcome, l(&after));
+        }
+    }
+
     /// static opcode histogram of the programs in FILE compiled at -O0 (println lines dropped: the
     /// compile-only pipeline does not know the stdlib globals); cache words after call opcodes skipped
     pub fn opcodes(file: &str) {
@@ -191,6 +301,8 @@ fn main() {
         imp::select();
     } else if let Some(f) = hxlib::arg("--run") {
         imp::run(&f);
+    } else if hxlib::flag("--arrayops") {
+        imp::arrayops(hxlib::arg_u64("--seed", 0), hxlib::arg_u64("--count", 4000));
     } else if hxlib::flag("--arrays") {
         imp::arrays(hxlib::arg_u64("--seed", 0), hxlib::arg_u64("--count", 2000));
     } else if let Some(f) = hxlib::arg("--opcodes") {
